@@ -1295,7 +1295,7 @@ impl Translator {
                     .statics
                     .get_iface_impl_for_type(&impl_ty.key(), iface)
                     .unwrap();
-                let method = &imp.methods[*method_index];
+                let method = &imp.get_method_of_iface(iface, *method_index).unwrap();
                 let desc = FuncDesc {
                     kind: FuncKind::NamedFunc(method.clone()),
                     overload_ty: Some(overloaded_func_ty.clone()),
@@ -1441,7 +1441,9 @@ impl Translator {
             .statics
             .get_iface_impl_for_type(&impl_ty.key(), iface_def)
             .unwrap();
-        let method = &imp.methods[method_index as usize];
+        let method = &imp
+            .get_method_of_iface(iface_def, method_index as usize)
+            .unwrap();
         let fqn = &self.statics.fully_qualified_names[&method.name.id];
         self.handle_func_call(st, mono, Some(overloaded_func_ty.clone()), fqn, method);
     }
